@@ -146,3 +146,28 @@ Definition set_ev_obs (e : evaluation) (v : list Qc) : evaluation :=
   {| ev_preds := ev_preds e; ev_obs := v; ev_chains := ev_chains e; ev_names := ev_names e |}.
 Definition set_ev_chains (e : evaluation) (v : list Z) : evaluation :=
   {| ev_preds := ev_preds e; ev_obs := ev_obs e; ev_chains := v; ev_names := ev_names e |}.
+
+(* ---- vocabulary of the source translations of predict_viability_avg / retrospective.calculate_mse (C20_PREDICT_AVG,
+   C20_CALC_MSE; Generated/SrcMetrics.v) ----
+   A theta is seen through the prediction vector it gives on the screen at hand (theta_t; the thetas are [per_theta], one
+   row per theta); a fully observed Screen through its observations (obs_screen; Screen.size = their number). *)
+Definition theta_t : Type := list Qc.
+Definition obs_screen : Type := list Qc.
+Definition E_UNMODELLED : Z := 96%Z.                      (* a value the exact-rational model cannot hold (inf) *)
+(* np.zeros((n,), dtype=float) *)
+Definition np_zeros1 (n : Z) : list Qc := repeat 0 (Z.to_nat n).
+(* np.isnan(x) on exact rationals: nowhere; m.any() *)
+Definition np_isnan1 (x : list Qc) : list bool := map (fun _ => false) x.
+Definition np_any1 (m : list bool) : bool := existsb (fun b => b) m.
+(* a + b / a - b on 1-d float arrays of one length (other lengths: broadcast of a single entry, else ValueError - refused) *)
+Definition np_add1 (a b : list Qc) : result (list Qc) :=
+  if Nat.eqb (length a) (length b) then Ok (vadd a b) else Err E_VALUE.
+Definition np_sub1 (a b : list Qc) : result (list Qc) :=
+  if Nat.eqb (length a) (length b) then Ok (map (fun p => fst p - snd p) (combine a b)) else Err E_VALUE.
+(* x ** 2 on a 1-d array *)
+Definition np_square1 (x : list Qc) : list Qc := map qsq x.
+(* v / n, n an int: entrywise; n = 0 gives NaN for a zero entry (0/0) and inf for any other - inf is not modelled *)
+Definition np_div_int (v : list Qc) (n : Z) : result (list Qc) :=
+  if (n =? 0)%Z then
+    (if forallb (qeqb 0) v then match v with [] => Ok [] | _ => Err E_NAN end else Err E_UNMODELLED)
+  else Ok (map (fun x => x / qofZ n) v).
